@@ -16,25 +16,37 @@ type rtr_ev =
 | RtrWriteS of nat * coq_N list
 | RtrCloseS of nat
 | RtrConnector of bool
+| RtrInband of rt_dir * coq_N list
+| RtrHsRead of bool * bool * bool
 | RtrReset
 
-type rtr_state = rt_state * bool
+val rtr_tok_act : coq_N list
+
+val rtr_tok_cfg : coq_N list
+
+val rtr_tok_fail : coq_N list
+
+val rtr_line_len : coq_N list -> nat option
+
+val rtr_hs_auto :
+  coq_N list -> coq_N list -> coq_N list -> coq_N list -> rt_state ->
+  rt_state option
 
 val rtr_pending : rt_state -> nat list
 
 val rtr_handler_ready : rt_state -> nat -> bool
 
 val rtr_pump_try :
-  coq_N list -> coq_N list -> coq_N list -> coq_N list -> bool -> rt_state ->
-  nat -> rt_dir -> rt_state option
+  coq_N list -> coq_N list -> coq_N list -> coq_N list -> rt_state -> nat ->
+  rt_dir -> rt_state option
 
 val rtr_once :
-  coq_N list -> coq_N list -> coq_N list -> coq_N list -> bool -> rt_state ->
+  coq_N list -> coq_N list -> coq_N list -> coq_N list -> rt_state ->
   rt_state option
 
 val rtr_settle :
-  nat -> coq_N list -> coq_N list -> coq_N list -> coq_N list -> bool ->
-  rt_state -> rt_state
+  nat -> coq_N list -> coq_N list -> coq_N list -> coq_N list -> rt_state ->
+  rt_state
 
 val rtr_push_c : nat -> pev -> rt_state -> rt_state
 
@@ -44,8 +56,12 @@ val rtr_or : rt_state -> rt_state option -> rt_state
 
 val rtr_fuel : rt_state -> nat
 
+val rtr_hs_read :
+  coq_N list -> coq_N list -> coq_N list -> coq_N list -> rt_state -> bool ->
+  bool -> bool -> rt_state
+
 val rtr_apply :
-  coq_N list -> coq_N list -> coq_N list -> coq_N list -> rtr_state -> rtr_ev
-  -> rtr_state
+  coq_N list -> coq_N list -> coq_N list -> coq_N list -> rt_state -> rtr_ev
+  -> rt_state
 
 val rtr_replay : coq_N list -> coq_Z -> coq_Z -> rtr_ev list -> rt_state
